@@ -1351,6 +1351,218 @@ fn decoded_cases(rep: &mut Report, r: &mut Rng, pool: &KeyPool, n: usize) {
     }
 }
 
+
+// ------------------------------------------------------------------------------------------
+// directed tr() texts whose script trees reach depth 126/127/128 (the depth-list builder of the
+// parser special-cases 128): one, two and three sibling-leaf pairs at the deepest level, on the
+// left spine, on the right spine and in distant branches.
+#[derive(Clone)]
+enum TT {
+    Leaf(String),
+    Node(Box<TT>, Box<TT>),
+}
+impl TT {
+    fn pair(a: &str, b: &str) -> TT { TT::Node(Box::new(TT::Leaf(a.into())), Box::new(TT::Leaf(b.into()))) }
+    fn node(l: TT, r: TT) -> TT { TT::Node(Box::new(l), Box::new(r)) }
+    fn text(&self, out: &mut String) {
+        // iterative: the trees are 128 deep, but keep it simple and explicit
+        match self {
+            TT::Leaf(k) => {
+                out.push_str("pk(");
+                out.push_str(k);
+                out.push(')');
+            }
+            TT::Node(l, r) => {
+                out.push('{');
+                l.text(out);
+                out.push(',');
+                r.text(out);
+                out.push('}');
+            }
+        }
+    }
+    /// the same tree through the public constructor API (independent of the string parser)
+    fn api(&self) -> Option<miniscript::descriptor::TapTree<String>> {
+        use miniscript::descriptor::TapTree;
+        match self {
+            TT::Leaf(k) => {
+                let ms = Miniscript::<String, Tap>::from_str(&format!("pk({})", k)).ok()?;
+                Some(TapTree::leaf(std::sync::Arc::new(ms)))
+            }
+            TT::Node(l, r) => TapTree::combine(l.api()?, r.api()?).ok(),
+        }
+    }
+}
+
+/// hang `bottom` below `levels` more branch nodes; the other child at each level is a single leaf
+fn deepen(mut t: TT, levels: usize, spine_left: bool, tag: &str) -> TT {
+    for i in 0..levels {
+        let sib = TT::Leaf(format!("{}{}", tag, i));
+        t = if spine_left { TT::node(t, sib) } else { TT::node(sib, t) };
+    }
+    t
+}
+
+/// What the TEXT means, read off the brace structure alone: (depth, leaf text) in order.
+fn leaves_from_text(tree_text: &str) -> Vec<(usize, String)> {
+    let mut out = Vec::new();
+    let (mut depth, mut paren) = (0usize, 0usize);
+    let mut cur = String::new();
+    for ch in tree_text.chars() {
+        match ch {
+            '{' if paren == 0 => depth += 1,
+            '}' if paren == 0 => {
+                if !cur.is_empty() {
+                    out.push((depth, std::mem::take(&mut cur)));
+                }
+                depth -= 1;
+            }
+            ',' if paren == 0 => {
+                if !cur.is_empty() {
+                    out.push((depth, std::mem::take(&mut cur)));
+                }
+            }
+            _ => {
+                if ch == '(' {
+                    paren += 1;
+                } else if ch == ')' {
+                    paren -= 1;
+                }
+                cur.push(ch);
+            }
+        }
+    }
+    if !cur.is_empty() {
+        out.push((depth, cur));
+    }
+    out
+}
+
+fn tr_leaves(d: &Descriptor<String>) -> Option<Vec<(usize, String)>> {
+    match d {
+        Descriptor::Tr(t) => Some(t.leaves().map(|l| (l.depth() as usize, dump_ms(l.miniscript().as_ref(), &|k: &String| k.clone()))).collect()),
+        _ => None,
+    }
+}
+
+/// Full judgement of one tr() text over String keys; returns failures as (key, what).
+fn judge_deep_tr(s0: &str, expect_ok: bool) -> Vec<(&'static str, String)> {
+    let mut fails = Vec::new();
+    let tree_text = match s0.strip_prefix("tr(").and_then(|r| r.strip_suffix(')')).and_then(|r| r.split_once(',')) {
+        Some((_, t)) => t.to_string(),
+        None => return vec![("rt:tr-deep:setup", "not a tr(K,TREE) text".into())],
+    };
+    // meaning of the text: pk(K) leaves at brace depth
+    let want: Vec<(usize, String)> =
+        leaves_from_text(&tree_text).into_iter().map(|(d, t)| (d, format!("Check(PkK({}))", &t[3..t.len() - 1]))).collect();
+    let x = match guarded(|| Descriptor::<String>::from_str(s0)) {
+        None => return vec![("rt:tr-deep:panic", "Descriptor::from_str panics".into())],
+        Some(Err(e)) => {
+            if expect_ok {
+                fails.push(("rt:tr-deep:reject", format!("a tree of legal depth is rejected: {}", e)));
+            }
+            return fails;
+        }
+        Some(Ok(x)) => x,
+    };
+    if !expect_ok {
+        fails.push(("rt:tr-deep:accept", "a tree deeper than 128 is accepted".into()));
+        return fails;
+    }
+    let show = |v: &Vec<(usize, String)>| -> String {
+        let ds: Vec<String> = v.iter().map(|(d, _)| d.to_string()).collect();
+        format!("{} leaves, depths [{}]", v.len(), ds.join(","))
+    };
+    let got = tr_leaves(&x).unwrap_or_default();
+    if got != want {
+        fails.push(("rt:tr-deep:meaning", format!("parsed tree has {} but the braces say {}", show(&got), show(&want))));
+    }
+    let s1 = x.to_string();
+    let body = s1.rsplit_once('#').map(|p| p.0).unwrap_or(&s1);
+    if body != s0 {
+        fails.push(("rt:tr-deep:reprint", format!("print(parse(s)) differs from s (lengths {} vs {})", body.len(), s0.len())));
+    }
+    match guarded(|| Descriptor::<String>::from_str(&s1)) {
+        None => fails.push(("rt:tr-deep:panic", "from_str panics on the printed descriptor".into())),
+        Some(Err(e)) => fails.push(("rt:tr-deep:reparse", format!("printed descriptor does not parse: {}", e))),
+        Some(Ok(y)) => {
+            let gy = tr_leaves(&y).unwrap_or_default();
+            if gy != got {
+                fails.push(("rt:tr-deep:dump", format!("reparsed tree has {} instead of {}", show(&gy), show(&got))));
+            }
+            if y.to_string() != s1 {
+                fails.push(("rt:tr-deep:fixpoint", "second print differs".into()));
+            }
+        }
+    }
+    fails
+}
+
+fn deep_tr_shapes() -> Vec<(String, TT, bool)> {
+    let mut v: Vec<(String, TT, bool)> = Vec::new();
+    let two = || TT::node(TT::pair("A", "B"), TT::pair("C", "D")); // height 2, two pairs at the bottom
+    let three = || TT::node(two(), TT::node(TT::pair("E", "F"), TT::Leaf("G".into()))); // height 3, three pairs
+    for d in [126usize, 127, 128, 129] {
+        let ok = d <= 128;
+        for left in [true, false] {
+            let side = if left { "left-spine" } else { "right-spine" };
+            v.push((format!("depth{}/1pair/{}", d, side), deepen(TT::pair("A", "B"), d - 1, left, "S"), ok));
+            v.push((format!("depth{}/2pairs/{}", d, side), deepen(two(), d - 2, left, "S"), ok));
+            v.push((format!("depth{}/3pairs/{}", d, side), deepen(three(), d - 3, left, "S"), ok));
+        }
+        // distant branches: both children of the root reach the maximum depth
+        let l = deepen(TT::pair("A", "B"), d - 2, true, "L");
+        let r = deepen(TT::pair("C", "D"), d - 2, false, "R");
+        v.push((format!("depth{}/2pairs/distant", d), TT::node(l.clone(), r.clone()), ok));
+        let m = deepen(TT::pair("E", "F"), d - 3, true, "M");
+        v.push((format!("depth{}/3pairs/distant", d), TT::node(l.clone(), TT::node(m, deepen(TT::pair("C", "D"), d - 3, false, "R"))), ok));
+        // a deep pair followed by a deep pair in the sibling subtree one level up (zig-zag)
+        let z = deepen(TT::node(deepen(TT::pair("A", "B"), 1, true, "Y"), deepen(TT::pair("C", "D"), 1, false, "Z")), d - 3, left_of(d), "S");
+        v.push((format!("depth{}/2pairs/adjacent-subtrees", d), z, ok));
+    }
+    v
+}
+fn left_of(d: usize) -> bool { d % 2 == 0 }
+
+fn deep_tr_cases(rep: &mut Report) {
+    for (name, tree, ok) in deep_tr_shapes() {
+        let mut t = String::new();
+        tree.text(&mut t);
+        let s0 = format!("tr(INTERNAL,{})", t);
+        let fails = judge_deep_tr(&s0, ok);
+        rep.count("descriptor/tr-deep", fails.is_empty() && ok);
+        rep.h(format!("tr-deep/{}", name));
+        for (k, what) in &fails {
+            rep.fail(k, &format!("{} [{}]", what, name), &s0);
+        }
+        // the same tree built with TapTree::leaf / TapTree::combine: parse(print(d)) must be d
+        if ok {
+            if let Some(Some(api)) = guarded(|| tree.api()) {
+                if let Some(Ok(d)) = guarded(|| Descriptor::<String>::new_tr("INTERNAL".to_owned(), Some(api))) {
+                    let want = tr_leaves(&d).unwrap_or_default();
+                    let printed = d.to_string();
+                    match guarded(|| Descriptor::<String>::from_str(&printed)) {
+                        Some(Ok(y)) => {
+                            let got = tr_leaves(&y).unwrap_or_default();
+                            if got != want {
+                                let ds = |v: &Vec<(usize, String)>| v.iter().map(|(d, _)| d.to_string()).collect::<Vec<_>>().join(",");
+                                rep.fail(
+                                    "rt:tr-deep:api",
+                                    &format!("parse(print(d)) differs from the constructed d: depths [{}] instead of [{}] [{}]", ds(&got), ds(&want), name),
+                                    &printed,
+                                );
+                            }
+                        }
+                        Some(Err(e)) => rep.fail("rt:tr-deep:api", &format!("printed constructed descriptor does not parse: {} [{}]", e, name), &printed),
+                        None => rep.fail("rt:tr-deep:panic", "from_str panics on a printed constructed descriptor", &printed),
+                    }
+                    rep.count("descriptor/tr-deep-constructed", true);
+                }
+            }
+        }
+    }
+}
+
 // ------------------------------------------------------------------------------------------
 pub fn run(seed: u64, tier: &str, replay: Option<&str>) {
     let mut rep = Report::new();
@@ -1388,6 +1600,7 @@ pub fn run(seed: u64, tier: &str, replay: Option<&str>) {
     policy_cases(&mut rep, &mut r, 700 * scale);
     wallet_template_cases(&mut rep, &mut r, 300 * scale);
     decoded_cases(&mut rep, &mut r, &pool, 300 * scale);
+    deep_tr_cases(&mut rep);
     for (k, (n, ok)) in &rep.counts {
         println!("RT kind={} generated={} accepted={}", k, n, ok);
     }
@@ -1425,6 +1638,15 @@ fn replay_one(kind: &str, s: &str) -> String {
         "ms-legacy" => ms::<Legacy>(s),
         "ms-segwit" => ms::<Segwitv0>(s),
         "ms-tap" => ms::<Tap>(s),
+        "trdeep" => {
+            let body = s.rsplit_once('#').map(|p| p.0).unwrap_or(s);
+            let fails = judge_deep_tr(body, true);
+            if fails.is_empty() {
+                "verdict=ok".into()
+            } else {
+                format!("verdict=FAIL {}", fails.iter().map(|(k, w)| format!("{}: {}", k, w)).collect::<Vec<_>>().join(" | "))
+            }
+        }
         "desc" => match guarded(|| Descriptor::<DescriptorPublicKey>::from_str(s)) {
             Some(Ok(x)) => format!("dump={} printed={}", dump_desc(&x, &|k| dump_dpk(k)), x),
             Some(Err(e)) => format!("rejected: {}", e),
